@@ -143,7 +143,7 @@ def worker(task):
             app = faults.applicable(cfg)
             rnd.shuffle(app)
             nops = len(faults.OPS)
-            want = [((seed % 1000) * 7 + j) % nops for j in range(max(6, nmut))]
+            want = [((seed % 1000) * max(6, nmut) + j) % nops for j in range(max(6, nmut))]
             picked = []
             for w_ in want:
                 for oi, site in app:
